@@ -132,11 +132,12 @@ Theorem checker_sound :
         | Some w =>
             (exists old, hd_error reads = Some (Some old) /\
                          forall r, In r reads -> r = Some old \/ r = Some w) /\
-            (completed faults trace = true ->
+            (forallb negb faults = true ->          (* no operation failed: the save ran to its end *)
+             length trace = 6%nat /\
              exists cfg, last reads None = Some cfg /\
                          forall t ob, persistent_topic t = true -> last_obj t (map fst pre) = Some ob ->
                                       slookup (to_lower t) cfg = Some ob)
-        | None => True
+        | None => forallb negb faults = false      (* a save gives up only when an operation failed *)
         end
     | Restart, Restored l =>
         saved_is_current (map fst pre) = true ->
